@@ -131,6 +131,17 @@ def builtin_and_optional_panics(mf, oc, scratch, profile, qs, timeout_ms, info, 
         raise V.Inconclusive("engine B disagrees with the real string built-ins on %d of %d vectors (%s), first: %r" % (len(mism), n, profile, mism[0]))
     for s_ in ssum:
         out += S.check_summary(s_, profile, qs, timeout_ms, V.seed(), "C17")
+    # string indexing by character (vec_op `[k]`), every UTF-8 width class
+    import strindexkernels as X
+    xk = X.StrIndexKernels(mf, oc, scratch.repo, seed=V.seed())
+    info["functions"][profile].update(xk.encoded_functions())
+    xsum = [xk.summarize(ws, k) for ws, k in X.shapes(tier)]
+    n, mism = X.validate(xsum, nat.eval, release)
+    info["validation_vectors"][profile + ":string-indexing"] = n
+    if mism:
+        raise V.Inconclusive("engine B disagrees with the real string indexing on %d of %d vectors (%s), first: %r" % (len(mism), n, profile, mism[0]))
+    for s_ in xsum:
+        out += X.check_summary(s_, profile, qs, timeout_ms, V.seed(), "C17")
     # list built-ins on a shared list (len/push/remove/reverse/clear/clone/index_of/join incl. the receiver joined with itself)
     import listkernels as L, c13_main
     lk = L.ListKernels(mf, oc, scratch.repo, seed=V.seed())
@@ -143,6 +154,16 @@ def builtin_and_optional_panics(mf, oc, scratch, profile, qs, timeout_ms, info, 
     lf = []
     for s_ in lsum:
         lf += L.check_summary(s_, profile, qs, timeout_ms, V.seed(), "C17")
+    import bridgekernels as BR
+    bk2 = BR.BridgeKernels(mf, oc, scratch.repo, seed=V.seed())
+    info["functions"][profile].update(bk2.encoded_functions())
+    bsum = c13_main.bridge_summaries(bk2, tier)
+    n, mism = BR.validate(bsum, nat.eval_raw, release)
+    info["validation_vectors"][profile + ":map-filter"] = n
+    if mism:
+        raise V.Inconclusive("engine B disagrees with the real map/filter bridge on %d of %d vectors (%s), first: %r" % (len(mism), n, profile, mism[0]))
+    for s_ in bsum:
+        lf += BR.check_summary(s_, profile, qs, timeout_ms, V.seed(), "C17")
     # these witnesses are replayed here (their result is more than one value); run_profile skips findings already confirmed
     c13_main.confirm(lf, nat, release)
     for f in lf:
